@@ -167,7 +167,7 @@ def generate(rng, tier):
             kind = "datetime_ns"       # the same instants held in nanoseconds (what pandas and some readers produce)
         odd = ["a b", "x,y", "col" + str(j)] + ([] if enc in ("latin-1", "cp1252") else ["日本"])
         spec.append((f"c{j}" if rng.random() < 0.8 else rng.choice(odd) + str(j), kind, vals))
-    if rng.random() < 0.02 and suffix in ("", ".gz"):
+    if rng.random() < (0.05 if fmt == "csv" else 0.02) and (suffix in ("", ".gz") or fmt == "csv"):
         # one very long text value (a document body, a geometry as text): beyond the csv module's field limit / a parser's block size
         strcols = [j for j, (_, k, _) in enumerate(spec) if k == "str"]
         if strcols:
